@@ -13,7 +13,8 @@ Decides:
  K repetition           parse_option decision table: Some only on strict progress; None exactly for
                         catch / (Missing and nothing consumed) / (non-Missing catchable) with state restored;
                         loops in some/count/last/many/collect leave on failure (shared with C06).
- O leftover             run_subparser returns Ok only when nothing is left in scope.
+ O leftover             run_subparser returns Ok only when nothing is left in scope; "no arguments were given" is decided on the state
+                        as it was BEFORE the parser ran (shared with C10).
  L lossless / B boundaries  typed values reach the conversion unaltered (PathBuf/OsString without to_str) and the byte-level
                         split of `-x=value` uses the real width of the first character (shared with C02).
  T separator           the pre-consumed `--` marker is the item at the position it was tokenized into (shared with C09).
@@ -62,7 +63,9 @@ def run(ctx):
         ctx.guard(c08.keep_only, ctx, lambda: c02.registry(ctx, cfg, fs), lambda o: True, 'R.registry')
         ctx.guard(c08.keep_only, ctx, lambda: c02.name_search(ctx, cfg, fs), lambda o: o.rule == 'R.registry', 'R.registry')
         ctx.guard(c08.keep_only, ctx, lambda: c02.lossless(ctx, cfg, fs), lambda o: 'parse_os_str' in o.key or o.key.startswith('value-path'), 'L.lossless')
-        ctx.guard(c08.keep_only, ctx, lambda: c02.boundaries(ctx, cfg, fs), lambda o: 'width-table' in o.key or 'cluster-test' in o.key or 'byte-length' in o.key or 'value-iff-equals' in o.key, 'B.boundaries')
+        ctx.guard(c08.keep_only, ctx, lambda: c02.boundaries(ctx, cfg, fs), lambda o: True, 'B.boundaries')
+        import c10
+        ctx.guard(c08.keep_only, ctx, lambda: c10.usage_fallback(ctx, cfg, ctx.look(fs.one(r'^info::OptionParser::<T>::run_subparser$')), 'O.leftover'), lambda o: True, 'O.leftover')
         import c09
         ctx.guard(c08.keep_only, ctx, lambda: c09.tokenizer(ctx, cfg, fs), lambda o: 'marker-' in o.key, 'T.separator')
         ctx.guard(c08.first_name_only, ctx, cfg, fs, 'N.name-once')
